@@ -95,7 +95,7 @@ var profTree = &Profile{
 }
 
 var profFormat = &Profile{
-	Name: "C14-format", MinOps: 2, MaxOps: 40, NColls: 4, BigKeys: true, BigVals: true, Hostile: true, Cmps: true, HugeNames: true, Bulk: 2,
+	Name: "C14-format", MinOps: 2, MaxOps: 40, NColls: 4, BigKeys: true, BigVals: true, Hostile: true, Cmps: true, HugeNames: true, Bulk: 2, Framed: 12,
 	Kinds: []wk{{OpSet, 36}, {OpSetR, 3}, {OpDel, 10}, {OpFlush, 18}, {OpEvict, 4}, {OpReopen, 6}, {OpSetColl, 6}, {OpRmColl, 3}, {OpCopyTo, 4}, {OpRevert, 3}},
 }
 
